@@ -6,6 +6,8 @@ import SamVerif.Props.C08
 #print axioms SamVerif.FmtFull.member_name_before_lt
 #print axioms SamVerif.FmtFull.roundtrip_expr_total
 #print axioms SamVerif.FmtFull.format_preserves_meaning
+#print axioms SamVerif.FmtFull.roundtrip_expr_sized
+#print axioms SamVerif.FmtFull.tuple_size_limit
 #print axioms SamVerif.FmtFull.eval_regroup
 #print axioms SamVerif.FmtFull.regroup_noShortcut
 #print axioms SamVerif.FmtFull.parseFuel_stable
